@@ -119,6 +119,8 @@ def drive(task):
             src = cfgsrc.random_src(rng, cnf=rng.random() < 0.35)
             if i % 4 == 3:
                 src["vnames"] = rng.randrange(len(U.VAR_NAME_POOLS))     # multi-character variable names
+            if i % 6 == 1:
+                src = cfgsrc.eps_as_terminal(src)                       # the glyph ε is an ordinary terminal here
             yield from events(src, task["n"])
             yield from history_events(src, task["n"])
             if i % 3 == 2:
